@@ -9,6 +9,9 @@ VERIF = os.path.dirname(os.path.dirname(os.path.abspath(__file__)))
 WHAT = {
     "C01-1": ("completed-by client lists initialised once before the loop in Allocator.allocations: every later join point carries them, CompleteCurrentTask is sent during an ordinary later element", ""),
     "C01-2": ("per-step clean-up in Worker.drive() only `if self.sampler is not None`: `complete` stays set after an early CompleteCurrentTask, all following elements are skipped (needs CCT between Drive and wake-up)", ""),
+    "C01-3": ("`complete_current_task_sent` memorised before the pending-clients test: the completed-by check runs only for the FIRST join-point message of a step; if that worker does not host (all of) the named task the broadcast never happens (needs the named task split over workers or a third worker arriving first)", "strengthened: clause CompletedByEnds + scenarios W3Split/W3Early"),
+    "C01-4": ("CompleteCurrentTask arriving between Drive and the start wake-up makes the worker drive() at once but leaves `start_driving` armed: the stale wake-up drives again without a Drive", "strengthened: clause NoSpuriousFailure; trace validation made total when the recorded state leaves the model's domain (before: machinery failure)"),
+    "C01-5": ("receiveMsg_Drive calls drive() directly when the start time has passed, `start_driving` stays set: stale CompleteCurrentTask honoured at the join point, periodic wake-up mistaken for the start signal, drive() blocks in executor_future.result()", "strengthened: blocking waits on a running executor are simulated / diagnosed (before: the check hung); one pool thread per worker"),
     "C02-1": ("over-committed client indices wrap at the parallel's own client count instead of max_clients: ragged matrix when another element is wider", ""),
     "C02-2": ("workers per host taken from the first host: a later host with fewer cores gets more workers than cores", ""),
     "C03-1": ("offset table built with character counts instead of tell(): multi-byte corpora > 50,000 lines seek too early", ""),
@@ -24,12 +27,17 @@ WHAT = {
     "C06-4": ("`if first_sample.throughput:` - a runner throughput of 0 is treated as none", "strengthened: model and drivers distinguish throughput 0 from None"),
     "C07-1": ("join-point flush guarded by executor_future (never true): a sample added between send_samples() and done() is lost", "strengthened: worker wake-up split at the executor preemption point (WWakeupA / executor steps / WWakeupB) in model and harness"),
     "C07-2": ("periodic wake-up ships samples only while busy", "superseded: led to the OverPlain scenarios and the genuine fix 328e366, after which the change no longer breaks the property"),
+    "C07-3": ("SamplePostprocessor writes latency / processing_time only `if sample.latency:`: a timing of exactly 0.0 loses its record", ""),
+    "C07-4": ("Sample.dependent_timings drops operation_name: service_time records of dependent sub-requests are stored under the parent operation", ""),
+    "C07-5": ("hand-over merged into externalize_metrics() with the clear condition inverted: records of intermediate steps are sent again at every later step", ""),
     "C08-1": ("throughput median through a helper whose sample_type defaults to None: warm-up samples shift the median", ""),
-    "C08-2": ("GlobalStats.metrics(task) matches task OR operation name: a task gets another task's metrics when names collide", "strengthening requested: colliding task/operation names"),
-    "C08-3": ("percentile rank rounded to 2 decimals: p99.9/p99.99 deviate from the linear interpolation for >= 1000 samples", "strengthening requested: exact interpolation promoted from L2 to L1"),
+    "C08-2": ("GlobalStats.metrics(task) matches task OR operation name: a task gets another task's metrics when names collide", "strengthened: colliding task/operation names"),
+    "C08-3": ("percentile rank rounded to 2 decimals: p99.9/p99.99 deviate from the linear interpolation for >= 1000 samples", "strengthened: exact interpolation promoted from L2 to L1"),
     "C09-1": ("worker no longer checks the executor's outcome between task rows of an over-committed parallel: the failed future is overwritten", "strengthened: OverPlain scenarios in the fault families"),
     "C09-2": ("race control releases the driver before storing the final samples: a failure in the final hand-over becomes a dead letter", ""),
     "C09-3": ("De Morgan slip `not (cancelled and error)`: results stored after a failure or a cancellation alone", ""),
+    "C09-4": ("Worker forwards a BenchmarkFailure only if it does not come from the driver: a driver failure answered to a worker by no_retry (store fault at a step boundary) is dropped", ""),
+    "C09-5": ("early returns in execute_single: `on-error: abort` no longer sees an unsuccessful RESULT (success: False), only raised errors", "strengthened: request fault variant `unsuccessful` (runner returns success False under on-error=abort)"),
     "C10-1": ("mixing checks by truthiness: warmup-iterations 0 with time-period is loaded", ""),
     "C10-2": ("nested rally.collect resolved against the track root instead of the fragment's directory", "strengthened: two-level includes with the outer part in a sub-directory"),
     "C11-1": ("emptied parallel dropped only if `task.clients == 0`: one with an explicit clients value stays", ""),
@@ -39,14 +47,14 @@ WHAT = {
     "C12-3": ("ProcessLauncher.stop skips storing system metrics for a node whose process is already gone", "strengthened: real ProcessLauncher.stop with node-process conditions (early / late / stubborn)"),
     "C13-1": ("config-base variables merged with setdefault: the first car's base wins over a later car's base", ""),
     "C13-2": ("cleanup skips data paths that string-prefix-match the install dir: a sibling named after the ES home survives", "strengthened: name-prefix sibling data paths in the universe"),
-    "C14-1": ("offset table built with encoded line lengths: CRLF corpora >= 50,000 lines get wrong offsets", "strengthening requested: CRLF variant of the large document"),
+    "C14-1": ("offset table built with encoded line lengths: CRLF corpora >= 50,000 lines get wrong offsets", "strengthened: CRLF variant of the large document"),
     "C14-2": ("_download_http prefers the server's Content-Length over the declared size: a wrong-sized download is renamed to the final name", ""),
     "C15-1": ("walrus unrolled into a truthiness test: a `.0` minor branch is skipped again", ""),
     "C15-2": ("remote branch name cut at the last slash: origin/backport/7.9 becomes 7.9", "strengthened: git leg uses path-like unrelated branch names whose last component looks like the wanted version"),
     "C15-3": ("_latest_major ignores patch/suffix branches: master chosen although a newer major exists as patch branch", ""),
     "C16-1": ("except clauses merged: other TransportErrors are swallowed, slept on and retried", ""),
     "C17-1": ("all 5xx status codes retryable", ""),
-    "C18-1": ("__exit__ propagates the child's timing only when no exception is in flight: failed sub-requests are not spanned", "strengthening requested: exceptional exits of nested contexts / failing sub-requests"),
+    "C18-1": ("__exit__ propagates the child's timing only when no exception is in flight: failed sub-requests are not spanned", "strengthened: exceptional exits of nested contexts / failing sub-requests (which also exposed the genuine defect fixed by f822262)"),
     "C19-1": ("flat-object member key taken as the last path segment: dotted composite source names collapse", "strengthened: dotted member names inside requested flat objects"),
     "C19-2": ("fast-path error count = number of DISTINCT (status, reason) pairs", ""),
     "C19-3": ("requested object never left at end_map: later scalars pollute the extracted after_key", ""),
